@@ -512,7 +512,8 @@ def detect_one(s, R=None):
         r = pycaption.detect_format(s)
         df = ["ret", None if r is None else getattr(r, "__name__", repr(r))]
     except BaseException as e:
-        df = ["exc", type(e).__name__]
+        # the documented error is judged with isinstance: a more specific subclass is still that error
+        df = ["exc", "CaptionReadNoCaptions" if isinstance(e, pycaption.CaptionReadNoCaptions) else type(e).__name__]
     own = []
     for name in DOCUMENTED_ORDER:
         try:
@@ -539,7 +540,12 @@ def run_pipeline_batch(job):
                 cs = mk_set(p["recipe"])
             else:
                 cs = R[p["reader"]]().read(doc_text(p["doc"]))
-            text = W[p["writer"]](**_ctor_kwargs(p["writer"], p.get("ctor"))).write(cs)
+            call = dict(p.get("call") or {})
+            for key, idx in (("force", "force_idx"), ("lang", "lang_idx")):
+                if idx in call:
+                    langs = list(cs.get_languages())
+                    call[key] = langs[call.pop(idx) % len(langs)]
+            text = W[p["writer"]](**_ctor_kwargs(p["writer"], p.get("ctor"))).write(cs, **call)
             rec["text"] = text
         except Exception as e:
             rec["setup_exc"] = type(e).__name__ + ": " + str(e)[:200]
